@@ -17,7 +17,14 @@ every cell (a corner/edge-rich sample of 400 when there are more), invalid cell 
 huge), interior points 1e-9..0.5 cell sizes off the cell edges, points exactly on cell / extent edges,
 outside points on the 4 sides and 4 diagonals from 1e-9 to 1e6 cells away (one third within one cell of
 the extent, where truncation and floor differ and where an off-by-one range test shows), and a few
-non-finite / 1e300 points. A case is non-trivial when it is a valid cell, or a point the property
+non-finite / 1e300 points. Request shapes: besides the base request, every vectorised entry point (cell2rowcol,
+cell2coord, coord2cell) is called with requests of length ncells, ncells-1, ncells+1, 1 and 2 with arbitrary
+content (shuffled / reversed / repeated cells, invalid numbers mixed in, points drawn with repeats) and with bare
+scalars, each element checked. State histories (40% of the geometries): the grid is constructed with another
+geometry, optionally used and/or cloned, and 1..5 of the public attributes xllcorner, yllcorner, cellsize, nrows,
+ncols are re-assigned (python or numpy scalars) to reach the geometry under test; model, oracle and a bit-for-bit
+cross-check against freshly constructed grids (constructor and from_dict(to_dict)) all refer to the NEW geometry.
+A case is non-trivial when it is a valid cell, or a point the property
 constrains (safely inside a footprint or safely outside the extent).
 """
 import json
@@ -204,54 +211,231 @@ def pairs_tok(rows, fmt):
 
 
 # ---------------------------------------------------------------------------------------------
-def run_geometry(ctx, st, nrows, ncols, xll, yll, csz, cells, invalid, pts, origin="gen"):
+# request shapes and state histories
+def gen_cell_requests(rng, n, cells, invalid):
+    """requests for the vectorised entry points whose LENGTH is n, n-1, n+1, 1, 2 with arbitrary content:
+    permutations, reversals, repeats, invalid numbers mixed in -> list of (tag, [cell numbers])"""
+    full = n <= MAXCELLS or rng.random() < 0.25
+    allc = list(range(n)) if full else None
+    bad = list(invalid[:8])
+    out = []
+
+    def mixed(L, pbad):
+        return [rng.choice(bad) if rng.random() < pbad else (rng.randrange(n)) for _ in range(L)]
+    if full:
+        perm = allc[:]
+        rng.shuffle(perm)
+        out.append(("len=n/shuffled", perm))
+        out.append(("len=n/reversed", allc[::-1]))
+        out.append(("len=n/repeats", mixed(n, 0.0)))
+        out.append(("len=n/mixed_invalid", mixed(n, 0.3)))
+        if n >= 2:
+            drop = perm[:]
+            drop.pop(rng.randrange(n))
+            out.append(("len=n-1/shuffled", drop))
+            out.append(("len=n-1/mixed_invalid", mixed(n - 1, 0.3)))
+        ins = allc[:]
+        ins.insert(rng.randrange(n + 1), rng.choice(bad + [rng.randrange(n)]))
+        out.append(("len=n+1/inserted", ins))
+        out.append(("len=n+1/mixed_invalid", mixed(n + 1, 0.3)))
+    out.append(("len=1/valid", [rng.randrange(n)]))
+    out.append(("len=1/invalid", [rng.choice(bad)]))
+    out.append(("len=2/mixed", mixed(2, 0.4)))
+    out.append(("len=2/swapped", [n - 1, 0]))
+    return out
+
+
+def gen_point_requests(rng, n, pts):
+    """coord2cell requests of n, n-1, n+1, 1, 2 points drawn (with repeats, any order) from the geometry's points"""
+    out = []
+    for L in sorted({n, n - 1, n + 1, 1, 2}):
+        if L < 1 or (L > MAXCELLS + 1 and rng.random() > 0.25):
+            continue
+        out.append((f"len={'n' if L == n else 'n-1' if L == n - 1 else 'n+1' if L == n + 1 else L}",
+                    [rng.choice(pts) for _ in range(L)]))
+    return out
+
+
+GEOM_ATTRS = ["xllcorner", "yllcorner", "cellsize", "nrows", "ncols"]
+
+
+def gen_history(rng, nrows, ncols, xll, yll, csz):
+    """a state history ending in the geometry (nrows, ncols, xll, yll, csz): construct with another geometry,
+    optionally use the grid and/or clone it, then re-assign the public geometry attributes (plain attributes
+    of Grid; the library's own test_compute_area re-assigns xllcorner / yllcorner on a clone)"""
+    final = {"xllcorner": xll, "yllcorner": yll, "cellsize": csz, "nrows": nrows, "ncols": ncols}
+    k = rng.choice([1, 1, 2, 2, 3, 5])
+    changed = rng.sample(GEOM_ATTRS, k)
+    init = dict(final)
+    for a in changed:
+        for _ in range(20):
+            if a == "cellsize":
+                v = gen_csz(rng)
+            elif a in ("nrows", "ncols"):
+                v = rng.randint(1, 40) if rng.random() < 0.7 else rng.randint(1, 3)
+            else:
+                v = rng.choice([gen_origin(rng, csz), final[a] + csz * rng.choice([-3.0, 0.5, 1.0, 100.0, -0.25])])
+            if v != final[a]:
+                init[a] = v
+                break
+    steps = [[a, final[a]] for a in changed if init[a] != final[a]]
+    rng.shuffle(steps)
+    return {"initial": init, "steps": steps, "clone": rng.choice(["no", "before", "after", "between"]),
+            "use_before": rng.random() < 0.6, "use_between": rng.random() < 0.3,
+            "numpy_scalars": rng.random() < 0.3}
+
+
+def use_grid(g):
+    """exercise every geometry function once (gives a cache, if there is one, the chance to be filled)"""
+    import numpy as np
+    g.cell2coord(0), g.cell2rowcol(0), g.neighbours(0), g.coord2cell(np.array([[g.xllcorner, g.yllcorner]]))
+    g.xvalues, g.yvalues, g.xlim, g.ylim
+
+
+def build_grid(gd):
+    """the grid under test for the geometry `gd`: freshly constructed, or reached through gd['history']"""
+    import numpy as np
+    from hydrodiy.gis.grid import Grid
+    h = gd.get("history")
+    if not h:
+        return Grid("c07", ncols=gd["ncols"], nrows=gd["nrows"], cellsize=gd["csz"], xllcorner=gd["xll"], yllcorner=gd["yll"])
+    i = h["initial"]
+    g = Grid("c07", ncols=i["ncols"], nrows=i["nrows"], cellsize=i["cellsize"], xllcorner=i["xllcorner"], yllcorner=i["yllcorner"])
+    if h.get("use_before"):
+        use_grid(g)
+    if h.get("clone") == "before":
+        g = g.clone()
+    for j, (attr, val) in enumerate(h["steps"]):
+        if h.get("numpy_scalars"):
+            val = np.int64(val) if attr in ("nrows", "ncols") else np.float64(val)
+        setattr(g, attr, val)
+        if j == 0 and len(h["steps"]) > 1:
+            if h.get("use_between"):
+                use_grid(g)
+            if h.get("clone") == "between":
+                g = g.clone()
+    if h.get("clone") in ("after", "between") and (h.get("clone") == "after" or len(h["steps"]) <= 1):
+        g = g.clone()
+    return g
+
+
+# ---------------------------------------------------------------------------------------------
+def run_geometry(ctx, st, nrows, ncols, xll, yll, csz, cells, invalid, pts, origin="gen", history=None, rng=None,
+                 requests=()):
     """calls the real code, queues the model requests, runs the oracle"""
     import numpy as np
     from hydrodiy.gis.grid import Grid
     gd = {"nrows": nrows, "ncols": ncols, "xll": xll, "yll": yll, "csz": csz}
-    g = Grid("c07", ncols=ncols, nrows=nrows, cellsize=csz, xllcorner=xll, yllcorner=yll)
+    if history:
+        gd["history"] = history
+    g = build_grid(gd)
+    hb = "history/" if history else ""
     ex = Exact(nrows, ncols, xll, yll, csz)
     gt = geom_tok(nrows, ncols, xll, yll, csz)
     gq = geom_tok_q(nrows, ncols, xll, yll, csz)
     n = nrows * ncols
     allcells = list(cells) + list(invalid)
 
-    # ---- cell2rowcol
-    rc = g.cell2rowcol(allcells)
-    st.add(f"rowcol {nrows} {ncols} {C.ilist(allcells)}", pairs_tok(rc.tolist(), str), {"geom": gd, "fn": "cell2rowcol"})
-    for c, (r, k) in zip(allcells, rc.tolist()):
-        valid = 0 <= c < n
-        ctx.count(("rc", gt, c), valid, "rowcol/valid" if valid else "rowcol/invalid")
-        if valid and (r, k) != divmod(c, ncols):
-            ctx.finding("cell2rowcol/wrong_rowcol", "cell2rowcol does not return (cell div ncols, cell mod ncols)",
-                        {"geom": gd, "cell": c, "got": [r, k], "expected": list(divmod(c, ncols))})
-        if not valid and (r, k) != (-1, -1):
-            ctx.finding("invalid_cell/not_flagged/cell2rowcol", "an invalid cell number is given a row/column",
-                        {"geom": gd, "cell": c, "got": [r, k]})
+    # ---- cell2rowcol: one request (a list, or a bare number when scalar=True)
+    def check_rowcol(req, tag="base", scalar=False):
+        rc = g.cell2rowcol(req[0] if scalar else req)
+        rows = rc.tolist()
+        case = {"geom": gd, "fn": "cell2rowcol", "request": tag}
+        if rc.shape != (len(req), 2):
+            ctx.finding("cell2rowcol/shape", "cell2rowcol does not return one (row, col) per requested cell", {**case, "shape": list(rc.shape)})
+            return rc
+        st.add(f"rowcol {nrows} {ncols} {C.ilist(req)}", pairs_tok(rows, str), case)
+        for c, (r, k) in zip(req, rows):
+            valid = 0 <= c < n
+            ctx.count(("rc", gt, c, tag), valid, f"{hb}rowcol/{tag}/" + ("valid" if valid else "invalid"))
+            if valid and (r, k) != divmod(c, ncols):
+                ctx.finding("cell2rowcol/wrong_rowcol", "cell2rowcol does not return (cell div ncols, cell mod ncols)",
+                            {**case, "cell": c, "cells": req[:400], "got": [r, k], "expected": list(divmod(c, ncols))})
+            if not valid and (r, k) != (-1, -1):
+                ctx.finding("invalid_cell/not_flagged/cell2rowcol", "an invalid cell number is given a row/column",
+                            {**case, "cell": c, "cells": req[:400], "got": [r, k]})
+        return rc
 
     # ---- cell2coord
-    xy = g.cell2coord(allcells)
-    st.add(f"c2c {gt} {C.ilist(allcells)}", pairs_tok(xy.tolist(), C.f2h), {"geom": gd, "fn": "cell2coord"})
-    st.addq(f"c2cQ {gq} {C.ilist(allcells)}", ("centres", ex, allcells, xy.tolist(), gd))
-    for c, (x, y) in zip(allcells, xy.tolist()):
-        valid = 0 <= c < n
-        ctx.count(("c2c", gt, c), valid, "cell2coord/valid" if valid else "cell2coord/invalid")
-        if valid:
-            cx, cy = ex.centre(c)
-            tx, ty = ex.tol(c)
-            if not (math.isfinite(x) and math.isfinite(y)) or abs(F(x) - cx) > tx or abs(F(y) - cy) > ty:
-                ctx.finding("cell2coord/not_centre", "cell2coord is not the centre of the cell footprint",
-                            {"geom": gd, "cell": c, "got": [x, y], "expected": [float(cx), float(cy)]})
-        elif not (x != x and y != y):
-            ctx.finding("invalid_cell/not_flagged/cell2coord", "an invalid cell number is given coordinates",
-                        {"geom": gd, "cell": c, "got": [x, y]})
+    centre_ok = {}   # cell -> (x, y) already verified against the exact centre
+
+    def check_c2c(req, tag="base", scalar=False, exact_model=False):
+        xy = g.cell2coord(req[0] if scalar else req)
+        rows = xy.tolist()
+        case = {"geom": gd, "fn": "cell2coord", "request": tag}
+        if xy.shape != (len(req), 2):
+            ctx.finding("cell2coord/shape", "cell2coord does not return one (x, y) per requested cell", {**case, "shape": list(xy.shape)})
+            return xy
+        st.add(f"c2c {gt} {C.ilist(req)}", pairs_tok(rows, C.f2h), case)
+        if exact_model:
+            st.addq(f"c2cQ {gq} {C.ilist(req)}", ("centres", ex, req, rows, gd))
+        for c, (x, y) in zip(req, rows):
+            valid = 0 <= c < n
+            ctx.count(("c2c", gt, c, tag), valid, f"{hb}cell2coord/{tag}/" + ("valid" if valid else "invalid"))
+            if valid:
+                if centre_ok.get(c) == (x, y):
+                    continue
+                cx, cy = ex.centre(c)
+                tx, ty = ex.tol(c)
+                if not (math.isfinite(x) and math.isfinite(y)) or abs(F(x) - cx) > tx or abs(F(y) - cy) > ty:
+                    ctx.finding("cell2coord/not_centre", "cell2coord is not the centre of the cell footprint",
+                                {**case, "cell": c, "cells": req[:400], "got": [x, y], "expected": [float(cx), float(cy)]})
+                else:
+                    centre_ok[c] = (x, y)
+            elif not (x != x and y != y):
+                ctx.finding("invalid_cell/not_flagged/cell2coord", "an invalid cell number is given coordinates",
+                            {**case, "cell": c, "cells": req[:400], "got": [x, y]})
+        return xy
+
+    # ---- coord2cell
+    point_ok = {}    # (x, y) -> (kind, expected, strip), exact classification done once per point
+
+    def check_points(req, tag="base", scalar=False, exact_model=False, sample=False):
+        arr = np.array([[p[0], p[1]] for p in req], dtype=np.float64)
+        res = g.coord2cell([req[0][0], req[0][1]] if scalar else arr)
+        got = res.tolist()
+        case0 = {"geom": gd, "fn": "coord2cell", "request": tag}
+        if res.shape != (len(req),):
+            ctx.finding("coord2cell/shape", "coord2cell does not return one cell per requested point", {**case0, "shape": list(res.shape)})
+            return res
+        st.add(f"xy2c {gt} {pairs_tok([(p[0], p[1]) for p in req], C.f2h)}", C.ilist(got),
+               {**case0, "points": [[p[0], p[1]] for p in req]})
+        exact_pts, exact_got = [], []
+        for (x, y, ptag), cell in zip(req, got):
+            key = (C.f2h(x), C.f2h(y))
+            if key not in point_ok:
+                point_ok[key] = ex.classify(x, y)
+            kind, want, strip = point_ok[key]
+            ctx.count(("xy", gt, key, tag), kind in ("inside", "outside"), f"{hb}coord2cell/{tag}/{ptag}/{kind}",
+                      sample={"geom": gd, "point": [x, y], "cell": cell} if sample else None)
+            case = {**case0, "point": [x, y], "got": cell, "expected": want, "kind": kind}
+            if kind == "inside" and cell != want:
+                ctx.finding("coord2cell/inside_wrong_cell", "a point inside the footprint of a cell is not mapped to it", case)
+            elif kind == "outside" and cell != -1:
+                if strip:
+                    ctx.finding("coord2cell/left_or_bottom_strip",
+                                "a point less than one cell left of / below the extent is mapped to a cell instead of -1", case)
+                else:
+                    ctx.finding("coord2cell/outside_not_flagged", "a point outside the extent is not mapped to -1", case)
+            elif kind in ("edgezone", "nonfinite") and cell != -1 and not 0 <= cell < n:
+                ctx.finding("coord2cell/invalid_result", "coord2cell returns a number that is neither -1 nor a cell", case)
+            if exact_model and kind in ("inside", "outside"):
+                exact_pts.append((F(x), F(y)))
+                exact_got.append(cell)
+        if exact_pts:
+            st.addq(f"xy2cQ {gq} {pairs_tok(exact_pts, C.rat)}", ("cells", exact_got, gd, exact_pts))
+        return res
+
+    check_rowcol(allcells)
+    xy = check_c2c(allcells, exact_model=True)
     # round trip on the real code
-    back = g.coord2cell(xy[:len(cells)]).tolist()
-    for c, b in zip(cells, back):
-        ctx.count(("rt", gt, c), True, "roundtrip")
-        if b != c:
-            ctx.finding("cell2coord/roundtrip", "coord2cell(cell2coord(c)) differs from c",
-                        {"geom": gd, "cell": c, "got": b})
+    if xy.shape == (len(allcells), 2) and cells:
+        back = g.coord2cell(xy[:len(cells)]).tolist()
+        for c, b in zip(cells, back):
+            ctx.count(("rt", gt, c), True, hb + "roundtrip")
+            if b != c:
+                ctx.finding("cell2coord/roundtrip", "coord2cell(cell2coord(c)) differs from c",
+                            {"geom": gd, "cell": c, "got": b})
 
     # ---- neighbours
     nbs, reps = {}, []
@@ -269,7 +453,7 @@ def run_geometry(ctx, st, nrows, ncols, xll, yll, csz, cells, invalid, pts, orig
         r = nb_of(c)
         valid = 0 <= c < n
         reps.append(r if isinstance(r, str) else "ok:" + C.ilist(r))
-        ctx.count(("nb", gt, c), valid, "neighbours/valid" if valid else "neighbours/invalid")
+        ctx.count(("nb", gt, c), valid, hb + ("neighbours/valid" if valid else "neighbours/invalid"))
         if valid:
             want = expected_neighbours(nrows, ncols, c)
             if r != want:
@@ -298,39 +482,34 @@ def run_geometry(ctx, st, nrows, ncols, xll, yll, csz, cells, invalid, pts, orig
 
     # ---- coord2cell
     if pts:
-        arr = np.array([[p[0], p[1]] for p in pts], dtype=np.float64)
-        got = g.coord2cell(arr).tolist()
-        st.add(f"xy2c {gt} {pairs_tok([(p[0], p[1]) for p in pts], C.f2h)}", C.ilist(got),
-               {"geom": gd, "fn": "coord2cell", "points": [[p[0], p[1]] for p in pts]})
-        exact_pts, exact_got = [], []
-        for (x, y, tag), cell in zip(pts, got):
-            kind, want, strip = ex.classify(x, y)
-            ctx.count(("xy", gt, x, y), kind in ("inside", "outside"), f"coord2cell/{tag}/{kind}",
-                      sample={"geom": gd, "point": [x, y], "cell": cell} if origin == "gen" else None)
-            case = {"geom": gd, "point": [x, y], "got": cell, "expected": want, "kind": kind}
-            if kind == "inside" and cell != want:
-                ctx.finding("coord2cell/inside_wrong_cell", "a point inside the footprint of a cell is not mapped to it", case)
-            elif kind == "outside" and cell != -1:
-                if strip:
-                    ctx.finding("coord2cell/left_or_bottom_strip",
-                                "a point less than one cell left of / below the extent is mapped to a cell instead of -1", case)
-                else:
-                    ctx.finding("coord2cell/outside_not_flagged", "a point outside the extent is not mapped to -1", case)
-            elif kind in ("edgezone", "nonfinite") and cell != -1 and not 0 <= cell < n:
-                ctx.finding("coord2cell/invalid_result", "coord2cell returns a number that is neither -1 nor a cell", case)
-            if kind in ("inside", "outside"):
-                exact_pts.append((F(x), F(y)))
-                exact_got.append(cell)
-        if exact_pts:
-            st.addq(f"xy2cQ {gq} {pairs_tok(exact_pts, C.rat)}", ("cells", exact_got, gd, exact_pts))
+        check_points(pts, exact_model=True, sample=(origin == "gen"))
+
+    # ---- recorded requests (corpus / replay), as they were: order, repeats and length matter
+    for tag, req in requests:
+        check_rowcol(req, tag, scalar=(tag == "scalar"))
+        check_c2c(req, tag, scalar=(tag == "scalar"))
+
+    # ---- other request shapes: length n, n-1, n+1, 1, 2 with arbitrary content; bare scalars
+    if rng is not None and n >= 1:
+        for tag, req in gen_cell_requests(rng, n, cells, invalid):
+            check_rowcol(req, tag)
+            check_c2c(req, tag)
+        for c in [0, n - 1, -1, n, rng.randrange(n), rng.choice(invalid)]:
+            check_rowcol([c], "scalar", scalar=True)
+            check_c2c([c], "scalar", scalar=True)
+        if pts:
+            for tag, req in gen_point_requests(rng, n, pts):
+                check_points(req, tag)
+            for _ in range(4):
+                check_points([rng.choice(pts)], "scalar", scalar=True)
 
     # ---- axes
     xv, yv = g.xvalues.tolist(), g.yvalues.tolist()
     xl, yl = g.xlim, g.ylim
     st.add(f"axes {gt}", f"{C.flist(xv)} {C.flist(yv)} {C.flist([xl[0], xl[1], yl[0], yl[1]])}", {"geom": gd, "fn": "axes"})
-    ctx.count(("axes", gt), True, "axes")
-    okx = len(xv) == ncols and all(abs(F(v) - ex.centre(j)[0]) <= ex.tol(j)[0] for j, v in enumerate(xv))
-    oky = len(yv) == nrows and all(abs(F(v) - ex.centre(i * ncols)[1]) <= ex.tol(i * ncols)[1] for i, v in enumerate(yv))
+    ctx.count(("axes", gt), True, hb + "axes")
+    okx = len(xv) == ncols and all(math.isfinite(v) and abs(F(v) - ex.centre(j)[0]) <= ex.tol(j)[0] for j, v in enumerate(xv))
+    oky = len(yv) == nrows and all(math.isfinite(v) and abs(F(v) - ex.centre(i * ncols)[1]) <= ex.tol(i * ncols)[1] for i, v in enumerate(yv))
     if not okx or any(b <= a for a, b in zip(xv, xv[1:])):
         ctx.finding("axes/xvalues", "xvalues are not the increasing column centres", {"geom": gd, "got": xv[:5]})
     if not oky or any(b >= a for a, b in zip(yv, yv[1:])):
@@ -339,11 +518,52 @@ def run_geometry(ctx, st, nrows, ncols, xll, yll, csz, cells, invalid, pts, orig
         grid_pts = np.array([[x, y] for y in yv for x in xv])
         if g.coord2cell(grid_pts).tolist() != list(range(n)):
             ctx.finding("axes/address", "(xvalues[j], yvalues[i]) is not mapped to cell i*ncols+j", {"geom": gd})
-    lims = [F(xl[0]), F(xl[1]), F(yl[0]), F(yl[1])]
+    lims = [float(xl[0]), float(xl[1]), float(yl[0]), float(yl[1])]
     wl = [ex.xll, ex.xll + ncols * ex.csz, ex.yll, ex.yll + nrows * ex.csz]
     tl = [0, ex.tol(ncols - 1)[0], 0, ex.tol(0)[1]]
-    if any(abs(a - b) > t for a, b, t in zip(lims, wl, tl)):
-        ctx.finding("axes/lims", "xlim/ylim are not the extent of the grid", {"geom": gd, "got": [float(v) for v in lims]})
+    if any(not math.isfinite(a) or abs(F(a) - b) > t for a, b, t in zip(lims, wl, tl)):
+        ctx.finding("axes/lims", "xlim/ylim are not the extent of the grid", {"geom": gd, "got": lims})
+
+    # ---- a grid reached through a history must answer like a freshly constructed grid of the same geometry
+    if history:
+        fresh = [Grid("fresh", ncols=ncols, nrows=nrows, cellsize=csz, xllcorner=xll, yllcorner=yll)]
+        try:
+            fresh.append(Grid.from_dict(g.to_dict()))
+        except Exception as e:  # noqa
+            ctx.finding("history/to_dict_from_dict", "a grid with re-assigned geometry cannot be rebuilt from its dictionary",
+                        {"geom": gd, "error": repr(e)})
+        arr = np.array([[p[0], p[1]] for p in pts], dtype=np.float64) if pts else np.zeros((0, 2))
+        def same(call):
+            """both grids give the same answer (an exception is an answer too)"""
+            res = []
+            for gr in (g, f):
+                try:
+                    res.append(np.asarray(call(gr), dtype=np.float64))
+                except Exception as e:  # noqa
+                    res.append(type(e).__name__)
+            a, b = res
+            if isinstance(a, str) or isinstance(b, str):
+                return isinstance(a, str) and isinstance(b, str) and a == b
+            return a.shape == b.shape and np.array_equal(a, b, equal_nan=True)
+        for f in fresh:
+            ctx.count(("fresh", gt, f.name), True, "history/fresh_grid_cross_check")
+            diffs = []
+            if not same(lambda gr: gr.same_geometry(f) and f.same_geometry(gr)) or not bool(g.same_geometry(f)):
+                diffs.append("same_geometry")
+            if not same(lambda gr: gr.cell2rowcol(allcells)):
+                diffs.append("cell2rowcol")
+            if not same(lambda gr: gr.cell2coord(allcells)):
+                diffs.append("cell2coord")
+            if len(arr) and not same(lambda gr: gr.coord2cell(arr)):
+                diffs.append("coord2cell")
+            if not all(same(lambda gr: gr.neighbours(c)) for c in (cells[:6] + cells[-3:] + list(invalid[:2]))):
+                diffs.append("neighbours")
+            if not all(same(fn) for fn in (lambda gr: gr.xvalues, lambda gr: gr.yvalues, lambda gr: gr.xlim, lambda gr: gr.ylim)):
+                diffs.append("axes")
+            if diffs:
+                ctx.finding("history/differs_from_fresh_grid",
+                            "after re-assigning geometry attributes a grid answers differently from a freshly constructed grid "
+                            "with the same geometry (bit-identical inputs)", {"geom": gd, "functions": diffs})
 
 
 class Stream:
@@ -385,7 +605,11 @@ def body(ctx):
         cells = [int(c) for c in case.get("cells", [])] + ([int(case["cell"])] if "cell" in case else [])
         n = gd["nrows"] * gd["ncols"]
         run_geometry(ctx, st, gd["nrows"], gd["ncols"], float(gd["xll"]), float(gd["yll"]), float(gd["csz"]),
-                     [c for c in cells if 0 <= c < n], [c for c in cells if not 0 <= c < n], pts, origin="corpus")
+                     [c for c in cells if 0 <= c < n], [c for c in cells if not 0 <= c < n], pts, origin="corpus",
+                     history=gd.get("history"),
+                     requests=[(str(r.get("tag", "recorded")), [int(c) for c in r["cells"]]) for r in case.get("requests", [])]
+                     + ([(str(case["request"]), [int(c) for c in case["cells"]])]
+                        if case.get("request", "base") != "base" and "cells" in case and "cell" in case else []))
 
     # ---- the raw helper getnxy (shared integer core used by the C06/C11/C16 models): C truncated % and /,
     #      any sign of cell number and ncols (ncols = 0 is a SIGFPE in C and is not called)
@@ -413,7 +637,14 @@ def body(ctx):
         xll, yll = gen_origin(rng, csz), gen_origin(rng, csz)
         cells, invalid = gen_cells(rng, nrows, ncols)
         pts = gen_points(rng, nrows, ncols, xll, yll, csz, cells, 40, 40)
-        run_geometry(ctx, st, nrows, ncols, xll, yll, csz, cells, invalid, pts)
+        history = gen_history(rng, nrows, ncols, xll, yll, csz) if rng.random() < 0.4 else None
+        try:
+            run_geometry(ctx, st, nrows, ncols, xll, yll, csz, cells, invalid, pts, history=history, rng=rng)
+        except (ValueError, TypeError, AssertionError, IndexError, OverflowError) as e:
+            # every call made there is inside the property's domain (neighbours of invalid cells is caught locally)
+            ctx.finding("api/exception", "a geometry function raised on a request inside the property's domain",
+                        {"geom": {"nrows": nrows, "ncols": ncols, "xll": xll, "yll": yll, "csz": csz, "history": history},
+                         "error": repr(e)[:300]})
 
     # ---- correspondence: Float instance, bit-exact
     replies = ctx.lean.ask(st.reqs)
@@ -449,7 +680,7 @@ def body(ctx):
                     ok = x != x and y != y
                 else:
                     tx, ty = ex.tol(c)
-                    ok = x == x and y == y and abs(F(x) - mx) <= tx and abs(F(y) - my) <= ty
+                    ok = math.isfinite(x) and math.isfinite(y) and abs(F(x) - mx) <= tx and abs(F(y) - my) <= ty
                 if not ok:
                     ctx.disagree("C07: cell2coord differs from the exact (Rat) model beyond the rounding budget",
                                  {"geom": gd, "cell": c, "impl": [x, y], "model": [str(mx), str(my)]})
